@@ -313,7 +313,7 @@ pub fn run_c17(tier: &str, seed: u64) -> Outcome {
         return o;
     }
     let exh_nt = o.classes.get("exhaustive_u8_pairs_nontrivial").copied().unwrap_or(0);
-    let (cases, shards) = if tier == "thorough" { (120_000u32, 16u32) } else { (4_000, 2) };
+    let (cases, shards) = if tier == "thorough" { (120_000u32, 16u32) } else { (10_000, 4) };
     let mut jobs = Vec::new();
     for t in crate::tp::ALL_TYPES {
         for sh in 0..shards {
